@@ -28,6 +28,8 @@ Clauses(s, e) ==
 
 ClassOf(s, e, clause) ==
   CASE e.call = "cut" /\ clause \in {"Conserve.comment", "Conserve.tokens"} -> CutClass(s, Init0(tid), e)
+    [] e.call \in {"cutput", "replace"} /\ clause \in {"RoundTrip.struct", "ReplaceBy.struct"} ->
+         BaseClass(s, e) \o IndentOnly(s, e)
     [] e.call \in {"extract", "cut", "cutput", "replace", "ownsrc"} -> BaseClass(s, e)
     [] e.call \in {"put_docstr", "put_line_comment"} -> e.call \o "/" \o e.kind \o "/" \o e.tclass
     [] OTHER -> "?"
